@@ -151,6 +151,11 @@ WrongSender  == "wrongsender" \in Extras /\
                   \/ \E a \in RewardAmts : Do(RewardsCall(a, Staker))
                   \/ \E b \in BatchIds(w.c) : Do(UnstakedCall(b, 1, Collector))
                   \/ \E b \in BatchIds(w.c) \ Outstanding(w) : Do([UnstakedCall(b, 2, Staker) EXCEPT !.limited = FALSE])
+                  \* the right sender with a single coin of ANOTHER denom: not a staked-asset payment
+                  \/ \E b \in Outstanding(w) : Do([UnstakedCall(b, w.c.batches[b].expected, Staker) EXCEPT !.limited = FALSE] @@ [den |-> "OTHERIBC"])
+                  \/ \E a \in RewardAmts : Do(RewardsCall(a, Collector) @@ [den |-> "OTHERIBC"])
+                  \* forced recovery by somebody who is not the admin, of any tracked packet (in flight or not)
+                  \/ \E p \in w.c.pk, u \in Principals : u # w.c.admin /\ Do(ForcedCall(u, <<p.seq>>, IF p.rcv = Staker THEN "" ELSE p.rcv))
 Direct       == "direct" \in Extras /\ \E u \in Principals :
                   \/ Do([m |-> "receive_rewards", s |-> u, funds |-> << >>])
                   \/ \E b \in BatchIds(w.c) : Do([m |-> "receive_unstaked_tokens", s |-> u, b |-> b, funds |-> << >>])
@@ -159,6 +164,10 @@ Stray_       == "stray" \in Extras /\ \E k \in {"ok", "err", "timeout"} :
                   \/ \E p \in w.c.pk : Do([m |-> "stray", channel |-> "channel-9", seq |-> p.seq, kind |-> k])
                   \/ Do([m |-> "stray", channel |-> Channel, seq |-> 77, kind |-> k])
 \* the admin-only messages tried by every principal
+\* the admin switches the treasury on and off (fees accrue without one and are withdrawn to one)
+Toggle       == "toggle" \in Extras /\
+                  Do([m |-> "update_config", s |-> w.c.admin,
+                      up |-> [feecfg |-> [fee |-> w.c.cfg.fee, treasury |-> IF w.c.cfg.treasury = "" THEN "treasury" ELSE "", valid |-> TRUE]]])
 \* ("matrix": only by principals that are not the admin - all refused, no new states; "matrixadmin": by everyone)
 Matrix       == ("matrix" \in Extras \/ "matrixadmin" \in Extras) /\ \E u \in Principals :
                   /\ ("matrixadmin" \in Extras \/ u # w.c.admin)
@@ -188,7 +197,7 @@ Resume       == AdminOps /\ w.c.stopped /\ \E u \in Principals, k \in ResumeScal
 Tick         == \E t \in TimePoints : Do(TimeCall(t))
 
 Next == Stake \/ StakeVariants \/ Unstake \/ Submit \/ Withdraw_ \/ Rewards \/ ReturnBatch \/ WrongSender \/ Direct \/ TopUp
-        \/ Relay \/ Stray_ \/ Recover_ \/ Forced \/ FeeWithdraw_ \/ Breaker \/ Resume \/ Matrix \/ Tick
+        \/ Relay \/ Stray_ \/ Recover_ \/ Forced \/ FeeWithdraw_ \/ Breaker \/ Resume \/ Matrix \/ Toggle \/ Tick
 
 Spec == Init /\ [][Next]_vars
 
